@@ -39,6 +39,10 @@ class Interposer:
         self.depth = 0
         self.log_fd = log_fd
         self.fired_faults = []
+        # (relative destination name, callable) - the callable runs once, straight before the first two-path call (link / rename /
+        # replace) that targets that name: "something else happens at the last possible moment before publication"
+        self.before_publish = None
+        self.publish_hook_fired = False
 
     # ---- helpers -------------------------------------------------------
     def _in_sandbox(self, path):
@@ -191,6 +195,13 @@ class Interposer:
                         os.path.realpath(os.path.dirname(os.path.abspath(paths[1])))
                 if name in ('chmod', 'fchmod') and len(a) > 1:
                     info['mode'] = a[1]
+                if two and ip.before_publish is not None and not ip.publish_hook_fired and info['dst'] == ip.before_publish[0]:
+                    ip.publish_hook_fired = True
+                    ip.active = False
+                    try:
+                        ip.before_publish[1]()
+                    finally:
+                        ip.active = True
                 idx, fault = ip._event('os.' + name, **info)
                 if fault:
                     raise fault
@@ -239,7 +250,7 @@ class Interposer:
         io.open = py_open
 
     def dump(self):
-        return {'events': self.events, 'fired_faults': self.fired_faults}
+        return {'events': self.events, 'fired_faults': self.fired_faults, 'publish_hook_fired': self.publish_hook_fired}
 
 
 class FileProxy:
